@@ -36,6 +36,7 @@ SCENARIOS = [      # (script, events, failing handlers, handlers that call stop(
     (["start", "stop", "start"], 3, [], [], "stop", "start"),
 ]
 STRICT = ["NoStuckState", "NoLostStart", "EndedFinal", "ThreadGoneAfterEnd", "RefusedWroteNothing", "StopEffective", "EndRepEffective"]
+LIVE = ["Settles", "EndedThreadGone", "EveryCommandReturns"]
 KNOWN = ["NoStuckStateK", "NoLostStartK", "EndedFinalK", "ThreadGoneK", "RefusedWroteNothing", "StopEffectiveK", "EndRepEffectiveK"]
 
 
@@ -109,6 +110,8 @@ def observables(ctx, sc, label, case):
     from harness.sched import SCHED
     sig = signatures(SCHED.log, st)
     probs = []
+    if sc.runnable():
+        probs.append(("not_settled", f"threads still runnable after a fair schedule of {len(SCHED.log)} accesses (specification: Settles, every scenario ends quiescent): {sc.runnable()}"))
     starts_ok = sum(1 for c, r in st["results"] if c in ("start", "start@STOP") and r == "ok")
     if ("stop@START", "ok") in st["results"]:
         k0 = next((k for k, d in enumerate(SCHED.log) if d["t"] == "w" and d["k"] == "W" and d["v"] == "rs" and d["x"] == "STOPPING"), None)
@@ -257,6 +260,19 @@ def overlap_layer(ctx: Ctx):
             ctx.add_tlc(f"SimThreads {script} events={nev} faulty={faulty} (known races set aside)", r)
             if not r.ok:
                 raise tlc.MachineryError(f"SimThreads.tla (pinned) violates {r.violated} beyond the known races for {script}: the model or the code has a third race")
+            # liveness under fairness of both threads and of the clock: every command returns, the threads settle, ENDED => the run thread ends
+            files, mod, cfg = tlc.mc_files("MC_SimThreads_live", "SimThreads", c, spec="LiveSpec", properties=LIVE)
+            rl = tlc.run(mod, cfg, extra_files=files, workers=4, timeout=900)
+            ctx.add_tlc(f"SimThreads {script} liveness {LIVE}", rl)
+            if not rl.ok:
+                raise tlc.MachineryError(f"SimThreads.tla violates liveness {rl.violated} for {script}")
+            if si == 2:      # (a scenario in which the run thread waits for itself) vacuity guards: a false liveness property is refuted; without the clock's fairness the threads need not settle
+                for spec_, prop_, extra_ in (("LiveSpec", "Bogus", 'Bogus == <>[](pc["w"] = "Done")'), ("NoClock", "Settles", "NoClock == Spec /\\ WF_vars(caller)")):
+                    files, mod, cfg = tlc.mc_files("MC_SimThreads_live", "SimThreads", c, spec=spec_, properties=[prop_], extra_defs=extra_)
+                    rb = tlc.run(mod, cfg, extra_files=files, workers=4, timeout=900)
+                    if rb.violated != prop_:
+                        raise tlc.MachineryError(f"liveness self-test: {prop_} under {spec_} was not refuted")
+                ctx.binding["liveness_selftests_refuted"] = 2
             files, mod, cfg = tlc.mc_files("MC_SimThreads", "SimThreads", c, invariants=STRICT)
             rs_ = tlc.run(mod, cfg, extra_files=files, workers=8, timeout=900)
             ctx.add_tlc(f"SimThreads {script} strict", rs_)
